@@ -10,7 +10,7 @@ lines = design[start:end].split('\n')
 head, rows = lines[:2], {}
 for l in lines[2:]:
     m = re.match(r'\| (C\d\d-\d+) \|', l)
-    if m:
+    if m and os.path.isdir(os.path.join(root, 'seeded', m.group(1))):
         rows[m.group(1)] = l
 def esc(s):
     return s.replace('|', '/').replace('\n', ' ').strip()
